@@ -645,6 +645,24 @@ func (r *Run) oracleC07() {
 			r.probe("blocking-report-rejected")
 		}
 	}
+	// (c') a call whose own context ended while the monitor was busy in a long
+	// Verify (and resumed only after everybody else had gone idle) cannot have
+	// seen a reply before its context ended: it must return the context error
+	for _, op := range r.ops {
+		switch op.K {
+		case "breport", "setsource", "report", "enable":
+		default:
+			continue
+		}
+		if op.Return == 0 || op.Err != nil || op.Deadline.IsZero() {
+			continue
+		}
+		for _, st := range r.stalls {
+			if op.Deadline.After(st.from) && op.Deadline.Before(st.to) && !op.ReturnAt.Before(st.to) {
+				r.fail("C07.context", "%s op %d (%s) returned nil at %v, %v after its own context's deadline; the monitor was busy in Verify from %v to %v, so no reply can have arrived before the context ended: the call was not bounded by its context", op.Client, op.Idx, op.K, op.ReturnAt.Format("15:04:05.000"), op.ReturnAt.Sub(op.Deadline), st.from.Format("15:04:05.000"), st.to.Format("15:04:05.000"))
+			}
+		}
+	}
 	// (d) nobody is left blocked on an abandoned caller: at quiescence no library task sits in a send
 	for _, t := range r.sim.Tasks() {
 		if t.Lib && t.State == simrt.Running && strings.Contains(t.Label, "send-pre") {
